@@ -266,8 +266,11 @@ def doc_level(ctx, n, cfgs):
             u = ctx.rng.choice(SCHEMES)
             doc = ctx.rng.choice(URL_TEMPLATES).replace("{u}", u).replace("{{", "{").replace("}}", "}") + "\n"
             kind = "scheme"
-        else:
+        elif r < 0.95:
             doc = gen.md_any(ctx.rng, 6).replace("foo", ctx.rng.choice(CANARIES))
+            kind = "canary"
+        else:
+            doc = gen.url_doc(ctx.rng)
             kind = "canary"
         try:
             out = md(doc)
